@@ -1,11 +1,30 @@
-"""Table of properties: Lean obligations, correspondence suites with the facets each property depends
-on (DESIGN §2.5 facet scoping), search oracle."""
+"""Table of properties: Lean obligations, correspondence suites with the lines/facets each property
+depends on (DESIGN §2.5 facet scoping), search oracle.
+
+`suites` entries are (suite name, rules); rules is None (every facet of every line), a list of facet
+names, or a list of (regex on the request line, facet names or None): a disagreement between model
+and implementation counts for the property only if a rule matches it."""
 from corr.bitarray import BitarraySuite
+from corr.bloom import BloomSuite, CBFSuite
+from corr.cms import CMSSuite
+from corr.cuckoo import CuckooSuite
+from corr.expanding import ExpandingSuite
 from corr.hashes import HashesSuite
+from corr.ondisk import OnDiskSuite
+from corr.qf import QFSuite
+from corr.sizing import SizingSuite
 
 SUITES = {
     "bitarray": BitarraySuite,
     "hashes": HashesSuite,
+    "bloom": BloomSuite,
+    "cbf": CBFSuite,
+    "expanding": ExpandingSuite,
+    "cms": CMSSuite,
+    "cuckoo": CuckooSuite,
+    "qf": QFSuite,
+    "ondisk": OnDiskSuite,
+    "sizing": SizingSuite,
 }
 
 TRUSTED_BASE = [
@@ -16,21 +35,104 @@ TRUSTED_BASE = [
     "the harness itself (generators, canonicalisation, comparison, search oracles): ordinary Python",
 ]
 
+READ_ONLY = r"\.(chk|stats|obs|export|hashes|jacc|view)\b"
+COUNTERS = ["count", "added", "total", "unique", "subcounts", "estimate", "cfpr", "setbits", "nblooms"]
+LOADS = r"\.(load|loadraw|reopen|loadmem|export)\b"
+
 PROPS = {
-    "C20": {
-        "suites": [("bitarray", None)],
+    "C01": {
+        "suites": [("bloom", [(r"^bf\.", ["ret", "bits"])]), ("expanding", [(r"^xb\.", ["ret", "subbits"])]), ("ondisk", [(r"^od\.", ["ret", "file", "bits"])])],
+        "search": True,
+        "assumptions": ["hash strategies are arbitrary functions in the theorems; md5/sha256/custom strategies reach the model as supplied hash lists", "export/load and reopen steps of the property are carried by C05/C11 theorems plus the tie"],
+    },
+    "C02": {
+        "suites": [("cms", [(r"^cm\.", ["ret", "bins", "total"])])],
+        "search": True,
+        "assumptions": ["claimed for legitimate removals and totals ≤ 2^31-1 (no clamp fires), as the property states"],
+    },
+    "C03": {
+        "suites": [("cuckoo", ["ret", "table", "count", "cap", "oracle_left", "unique"])],
+        "search": True,
+        "assumptions": ["the filter's random draws are an arbitrary oracle list in the theorems; the tie records the real draws by wrapping random.choice/randint in the harness process", "G = hash(str(fingerprint)) is an arbitrary function in the theorems"],
+    },
+    "C04": {
+        "suites": [("qf", None)],
         "search": True,
         "assumptions": [
-            "indices and values are Python ints (the property quantifies over integer indices/values)",
-            "size < 2^53 so that math.ceil(size / 8) is exact (the model uses (size+7)/8)",
+            "PARTIAL: the unbounded theorem C04_partial takes the refinement of the two write paths (add/remove map the canonical layout of S to the canonical layout of S∪{h} / S∖{h}) and the two read-path facts as explicit hypotheses (visible Prop definitions in Properties/C04.lean); they are supported by kernel-checked exhaustive enumeration on small tables (examples, labelled tests) and by the correspondence, which compares the complete real state with the model after every operation",
+            "hashes are < 2^32; the three metadata Bitarrays are modelled as List Bool (C20 is the refinement)",
         ],
     },
+    "C05": {
+        "suites": [(s, [(LOADS, None)]) for s in ("bloom", "cbf", "expanding", "cms", "cuckoo", "ondisk")],
+        "search": True,
+        "assumptions": ["geometry re-derivation on load is a parameter `geom` of the theorems with the hypothesis that it returns the stored geometry (reload stability: C07_stable + sizing correspondence)", "channel plumbing (path / file object / bytes / hex / frombytes / filepath=) is carried by the tie"],
+    },
+    "C06": {
+        "suites": [(s, [(r"\.export\b", ["payload"]), (r"\.(add|rem)\b", ["bits", "cells", "bins", "table", "subbits"])]) for s in ("bloom", "cbf", "cms", "expanding", "cuckoo")] + [("hashes", None)],
+        "search": True,
+        "assumptions": ["the reference C reader/writer is rendered as an independent Lean specification (Spec/Layout.lean, Spec/Fnv.lean) and an independent Python reference in the search; a compiled C program is not part of the registered checks"],
+    },
+    "C07": {
+        "suites": [("sizing", None), ("bloom", [(r"\.(new|load)\b", ["geom", "fpr32", "ret"])]), ("cms", [(r"\.new\b", ["geom", "ret"])])],
+        "search": True,
+        "assumptions": [
+            "theorems are over the real numbers on the same generic definitions that the Float instance executes; IEEE-754 rounding between the two is NOT verified (the sizing suite compares the Float instance with the code bit-for-bit on sampled inputs, the search evaluates the inequalities exactly / with 50-digit decimals)",
+            "PARTIAL: the Bloom 7% rounding-allowance clause is the code-independent real inequality C07_BloomRoundingAllowance (a visible Prop); C07_bloom_partial is conditional on it",
+        ],
+    },
+    "C08": {
+        "suites": [("cbf", [(r"^cb\.(add|rem|chk)", ["ret", "cells", "count"])]), ("cuckoo", [(r"kind=cc|^ck\.", ["ret", "table", "count", "unique"])])],
+        "search": True,
+        "assumptions": ["claimed below saturation and for removals not exceeding the outstanding count, as the property states"],
+    },
+    "C09": {"suites": [("expanding", [(r"^xb\.", ["ret", "expansions", "subcounts", "added", "nblooms"])])], "search": True, "assumptions": ["the membership answer before each add is an arbitrary Boolean in the theorems (stronger than the code's answer)"]},
+    "C10": {"suites": [("expanding", [(r"^rb\.", ["ret", "nblooms", "subcounts", "subbits"])])], "search": True, "assumptions": ["same max_queue_size is re-supplied on reload"]},
+    "C11": {
+        "suites": [("ondisk", None)],
+        "search": True,
+        "assumptions": [
+            "crash points are process kills between micro-steps (one byte store through the mapping, one flushed 8-byte count); the tie checks that the file contents seen at every executed source line are exactly the model's micro-step trace; the thorough tier kills a child process with SIGKILL at every line event",
+            "NOT modelled: power loss, fsync ordering, torn multi-byte stores; resolution of path names against the working directory is checked by the tie and the search only",
+        ],
+    },
+    "C12": {
+        "suites": [("bloom", [(r"\.(union|add)\b", ["ret", "bits"])]), ("cbf", [(r"\.(union|add)\b", ["ret", "cells"])]), ("cms", [(r"\.(join|add)\b", ["ret", "bins", "total"])]), ("ondisk", [(r"^(bf\.union|od\.view)", ["ret", "bits"])])],
+        "search": True,
+        "assumptions": ["claimed for unsaturated states, as the property states"],
+    },
+    "C13": {
+        "suites": [("bloom", [(r"\.(inter|jacc|union|obs)\b", ["ret", "bits", "count"])]), ("cbf", [(r"\.(inter|jacc|union|obs)\b", ["ret", "cells", "count"])]), ("cms", [(r"\.(join|obs)\b", ["ret", "bins", "total"])]), ("ondisk", [(r"^(bf\.(inter|jacc|union)|od\.(view|obs))", ["ret", "bits", "file"])])],
+        "search": True,
+        "assumptions": ["'operands are not modified' and TypeError for foreign operand types are outside the model (purity is typing there): decided by the tie (operand observations after every set operation) and the search"],
+    },
+    "C14": {
+        "suites": [(s, COUNTERS) for s in ("bloom", "cbf", "expanding", "cms", "cuckoo", "qf", "ondisk")],
+        "search": True,
+        "assumptions": ["float statistics: formula identity over the reals + bit-for-bit correspondence of the Float instance; IEEE rounding not verified", "quotient filter: count = number of stored hashes follows from C04 (partial, see there)"],
+    },
+    "C15": {"suites": [("cuckoo", ["table", "cap", "geom"])], "search": True, "assumptions": ["all oracles, arbitrary G; loading an export preserves the invariant by the C05 round trip"]},
+    "C16": {"suites": [("cms", [(r"^cm\.", ["ret", "bins", "total"])]), ("cbf", [(r"^cb\.", ["ret", "cells", "count"])])], "search": True, "assumptions": ["amounts are ints ≥ 1 (unbounded)"]},
+    "C17": {"suites": [("cms", [(r"^cm\.", ["table", "ret"])])], "search": True, "assumptions": ["heavy hitters: adds only with n ≥ 1 (remove is not supported by the class)"]},
     "C18": {
         "suites": [("hashes", None)],
         "search": True,
         "assumptions": [
             "md5/sha256 digests are external (hashlib): theorems hold for the byte decorator applied to ANY pure function; the two shipped digests are exercised by the search oracle only",
             "purity/determinism is the function type in the model; on the real code it is checked by repeated calls in the search oracle",
+        ],
+    },
+    "C19": {
+        "suites": [(s, [(READ_ONLY, None), (r"\.clear\b", None)]) for s in ("bloom", "cbf", "expanding", "cms", "cuckoo", "qf", "ondisk")],
+        "search": True,
+        "assumptions": ["query purity is the function type in the models and therefore decided by the tie and the search; clear = fresh structure and the no-op of the on-disk count rewrite are theorems"],
+    },
+    "C20": {
+        "suites": [("bitarray", None)],
+        "search": True,
+        "assumptions": [
+            "indices and values are Python ints (the property quantifies over integer indices/values)",
+            "size < 2^53 so that math.ceil(size / 8) is exact (the model uses (size+7)/8)",
         ],
     },
 }
